@@ -204,15 +204,17 @@ def main():
     if here not in sys.path:
         sys.path.insert(0, here)
     failed = []
-    for path in sorted(glob.glob(os.path.join(here, "gen_c[0-9][0-9].py"))):
+    shared = {"gen_cd": ["gen_c07", "gen_c08", "gen_c19"]}   # translators several properties depend on
+    for path in sorted(glob.glob(os.path.join(here, "gen_c[0-9][0-9].py"))) + [os.path.join(here, "gen_cd.py")]:
         name = os.path.basename(path)[:-3]
         try:
             mod = importlib.import_module(name)
             mod.main()
         except Exception as e:       # fail-closed per property: the check of that property reports a broken tie
             import traceback
-            failed.append(name)
-            print("TRANSLATOR-FAILED %s: %s: %s" % (name, type(e).__name__, str(e)[:300]))
+            for name in shared.get(name, [name]):
+                failed.append(name)
+                print("TRANSLATOR-FAILED %s: %s: %s" % (name, type(e).__name__, str(e)[:300]))
             traceback.print_exc()
     if failed:
         print("TRANSLATOR-FAILED-LIST " + " ".join(failed))
